@@ -193,7 +193,7 @@ func c19Plain(sh c19Shape, stall int, ctx context.Context, onStall func()) *c19O
 		<-done
 		out.returned = false
 	}
-	out.closed = a.ClosedSoon(3 * time.Second)
+	out.closed = a.IsClosed() || stall > 0 && a.ClosedSoon(3*time.Second)
 	out.ops = a.Ops
 	return out
 }
